@@ -13,6 +13,16 @@
 (*          (the rest is labelled 1; either side may be empty / undersized) *)
 (* Ranks: -1 = NaN (every comparison false), 0 = -infinity, >= 1 finite.    *)
 (*                                                                          *)
+(* The oracle is a FUNCTION OF THE CLUSTER (the set of its points): the     *)
+(* mixture fits of the code are seeded identically, so the answer for a     *)
+(* cluster does not depend on when, how often or in which order it is asked.*)
+(* The variable `oracle` is that (partial) function, extended on the first  *)
+(* consultation of a cluster (improvement) / the first request for its      *)
+(* partition, and reused afterwards.  The property is about the DECISIONS   *)
+(* taken from these answers (which splits are accepted, the labelling, K),  *)
+(* not about the protocol of consultations: an implementation may evaluate  *)
+(* a cluster once and remember it, or re-evaluate it in every pass.         *)
+(*                                                                          *)
 (* One action per step of the code:                                         *)
 (*   BeginIter  `while iteration < max_iterations: iteration += 1`          *)
 (*   SkipSmall  `if len(indices) < min_points: continue`                    *)
@@ -33,6 +43,7 @@ CONSTANTS Ns,          \* set of point-set sizes
           MinPtsSet,   \* set of min_points values (>= 1)
           MaxIterSet,  \* set of max_iterations values (cap on K is max_iterations + 1)
           R,           \* number of distinct "above threshold" improvement ranks the oracle may use
+          LowKinds,    \* the "not above threshold" answers the oracle may use: a subset of {"nan", "neginf", "thr"}
           Variant      \* "intended" (= as coded, the code conforms) or a seeded wrong variant "Mut_..."
 
 VARIABLES n, minPts, maxIter,
@@ -41,13 +52,14 @@ VARIABLES n, minPts, maxIter,
           iter,      \* `iteration`
           idx,       \* 1-based position of the for loop over clusters
           best,      \* [imp, thr, parent, c1, c2]  (parent = 0: best_split is None)
-          log,       \* ghost: every oracle consultation, in call order (the replay script)
+          oracle,    \* the oracle answers used so far: cluster -> [imp, thr, known, c1] (known: partition requested)
+          log,       \* ghost: every oracle consultation of the reference loop, in its order
           splits,    \* ghost: every accepted split [it, parent, ids, c1, c2]
           labels,    \* point -> label after Finalize (<<>> before)
           K,         \* n_clusters_ (-1 before Finalize)
           query, pred
 
-vars == <<n, minPts, maxIter, pc, clusters, iter, idx, best, log, splits, labels, K, query, pred>>
+vars == <<n, minPts, maxIter, pc, clusters, iter, idx, best, oracle, log, splits, labels, K, query, pred>>
 
 NaN    == -1
 NegInf == 0
@@ -55,6 +67,7 @@ ThrGen == 1      \* rank of the threshold in generator mode
 
 NoBest == [imp |-> NegInf, thr |-> NegInf, parent |-> 0, c1 |-> {}, c2 |-> {}]
 NoQuery == [kind |-> "none", k |-> -1]
+NoOracle == <<>>     \* the function with empty domain
 
 \* IEEE "a > b" on ranks: false as soon as one side is NaN
 Gt(a, b) == a # NaN /\ b # NaN /\ a > b
@@ -67,6 +80,7 @@ InitWith(nn, mp, mi) ==
     /\ iter = 0
     /\ idx = 0
     /\ best = NoBest
+    /\ oracle = NoOracle
     /\ log = <<>>
     /\ splits = <<>>
     /\ labels = <<>>
@@ -84,13 +98,13 @@ BeginIter ==
     /\ idx' = 1
     /\ best' = NoBest
     /\ pc' = "for"
-    /\ UNCHANGED <<n, minPts, maxIter, clusters, log, splits, labels, K, query, pred>>
+    /\ UNCHANGED <<n, minPts, maxIter, clusters, oracle, log, splits, labels, K, query, pred>>
 
 CapStop ==
     /\ pc = "while"
     /\ ~(IF Variant = "Mut_CapOffByOne" THEN iter <= maxIter ELSE iter < maxIter)
     /\ pc' = "final"
-    /\ UNCHANGED <<n, minPts, maxIter, clusters, iter, idx, best, log, splits, labels, K, query, pred>>
+    /\ UNCHANGED <<n, minPts, maxIter, clusters, iter, idx, best, oracle, log, splits, labels, K, query, pred>>
 
 \* if len(indices) < min_points: continue
 SkipSmall ==
@@ -98,13 +112,21 @@ SkipSmall ==
     /\ Variant # "Mut_NoSizeGuard"
     /\ Cardinality(clusters[idx]) < minPts
     /\ idx' = idx + 1
-    /\ UNCHANGED <<n, minPts, maxIter, pc, clusters, iter, best, log, splits, labels, K, query, pred>>
+    /\ UNCHANGED <<n, minPts, maxIter, pc, clusters, iter, best, oracle, log, splits, labels, K, query, pred>>
 
 \* does the code call child_gmm.predict for this candidate?
 Asked(imp, thr) ==
     IF Variant = "Mut_GeThreshold"
     THEN imp # NaN /\ thr # NaN /\ imp >= thr /\ Gt(imp, best.imp)
     ELSE Gt(imp, thr) /\ Gt(imp, best.imp)
+
+\* the oracle after cluster C answered (imp, thr) and - if its partition was requested - c1
+Known(C) == C \in DOMAIN oracle
+Remember(C, imp, thr, asked, c1) ==
+    LET ent == IF asked THEN [imp |-> imp, thr |-> thr, known |-> TRUE, c1 |-> c1]
+               ELSE IF Known(C) THEN [oracle[C] EXCEPT !.imp = imp, !.thr = thr]
+               ELSE [imp |-> imp, thr |-> thr, known |-> FALSE, c1 |-> {}]
+    IN  [D \in DOMAIN oracle \cup {C} |-> IF D = C THEN ent ELSE oracle[D]]
 
 \* One candidate evaluation with the oracle's answers (imp, thr, c1).
 EvaluateWith(imp, thr, c1) ==
@@ -119,19 +141,28 @@ EvaluateWith(imp, thr, c1) ==
        IN  /\ c1 \subseteq C
            /\ (~asked => c1 = {})          \* predict not called: no partition to choose
            /\ best' = IF ok THEN [imp |-> imp, thr |-> thr, parent |-> idx, c1 |-> c1, c2 |-> c2] ELSE best
+           /\ oracle' = Remember(C, imp, thr, asked, c1)
            /\ log' = Append(log, [it |-> iter, pos |-> idx, ids |-> C, imp |-> imp, thr |-> thr,
                                   asked |-> asked, c1 |-> c1])
     /\ idx' = idx + 1
     /\ UNCHANGED <<n, minPts, maxIter, pc, clusters, iter, splits, labels, K, query, pred>>
 
-\* generator mode: the oracle is arbitrary within the bounds
-GenImps == {NaN, NegInf, ThrGen} \cup (ThrGen + 1)..(ThrGen + R)
+\* generator mode: the oracle is arbitrary within the bounds on the FIRST consultation of a cluster (improvement) and
+\* on the first request for its partition; afterwards it repeats itself (a function of the cluster by construction).
+\* "Mut_ForgetfulOracle" is the seeded wrong variant in which it does not (refuted by OracleIsFunction).
+LowImps == {r \in {NaN, NegInf, ThrGen} : \/ r = NaN /\ "nan" \in LowKinds
+                                          \/ r = NegInf /\ "neginf" \in LowKinds
+                                          \/ r = ThrGen /\ "thr" \in LowKinds}
+GenImps == LowImps \cup (ThrGen + 1)..(ThrGen + R)
+Remembers == Variant # "Mut_ForgetfulOracle"
 
 Evaluate ==
     /\ pc = "for" /\ idx <= Len(clusters)
-    /\ \E imp \in GenImps :
+    /\ LET C == clusters[idx] IN
+       \E imp \in (IF Remembers /\ Known(C) THEN {oracle[C].imp} ELSE GenImps) :
           IF Asked(imp, ThrGen)
-          THEN \E c1 \in SUBSET clusters[idx] : EvaluateWith(imp, ThrGen, c1)
+          THEN \E c1 \in (IF Remembers /\ Known(C) /\ oracle[C].known THEN {oracle[C].c1} ELSE SUBSET C) :
+                   EvaluateWith(imp, ThrGen, c1)
           ELSE EvaluateWith(imp, ThrGen, {})
 
 \* clusters.pop(best_parent_idx); clusters.extend(best_split)
@@ -144,14 +175,14 @@ AcceptBest ==
     /\ splits' = Append(splits, [it |-> iter, parent |-> best.parent, ids |-> clusters[best.parent],
                                  c1 |-> best.c1, c2 |-> best.c2])
     /\ pc' = "while"
-    /\ UNCHANGED <<n, minPts, maxIter, iter, idx, best, log, labels, K, query, pred>>
+    /\ UNCHANGED <<n, minPts, maxIter, iter, idx, best, oracle, log, labels, K, query, pred>>
 
 \* if best_split is None: break
 Stop ==
     /\ pc = "for" /\ idx = Len(clusters) + 1
     /\ best.parent = 0
     /\ pc' = "final"
-    /\ UNCHANGED <<n, minPts, maxIter, clusters, iter, idx, best, log, splits, labels, K, query, pred>>
+    /\ UNCHANGED <<n, minPts, maxIter, clusters, iter, idx, best, oracle, log, splits, labels, K, query, pred>>
 
 \* labels[indices] = cluster_idx ; n_clusters_ = len(clusters)
 LabelOf(p) == (CHOOSE j \in 1..Len(clusters) : p \in clusters[j]) - 1
@@ -161,7 +192,7 @@ Finalize ==
     /\ labels' = [p \in 1..n |-> IF Variant = "Mut_LabelFromOne" THEN LabelOf(p) + 1 ELSE LabelOf(p)]
     /\ K' = Len(clusters)
     /\ pc' = "done"
-    /\ UNCHANGED <<n, minPts, maxIter, clusters, iter, idx, best, log, splits, query, pred>>
+    /\ UNCHANGED <<n, minPts, maxIter, clusters, iter, idx, best, oracle, log, splits, query, pred>>
 
 \* predict: argmax over the K component posteriors (Gaussian path) or argmin over K centre
 \* distances (fallback path): either way an index of a length-K array.  For a query placed on the
@@ -177,7 +208,7 @@ PredictWith(q, w) ==
     /\ query' = q
     /\ pred' = w
     /\ pc' = "predicted"
-    /\ log' = <<>> /\ splits' = <<>> /\ best' = NoBest /\ iter' = 0 /\ idx' = 0
+    /\ log' = <<>> /\ splits' = <<>> /\ best' = NoBest /\ iter' = 0 /\ idx' = 0 /\ oracle' = NoOracle
     /\ UNCHANGED <<n, minPts, maxIter, clusters, labels, K>>
 
 Predict == \E q \in Queries : \E w \in 0..(K - 1) : PredictWith(q, w)
@@ -193,7 +224,7 @@ Refit ==
          /\ n' = nn
          /\ clusters' = << 1..nn >>
     /\ pc' = "while"
-    /\ iter' = 0 /\ idx' = 0 /\ best' = NoBest /\ log' = <<>> /\ splits' = <<>> /\ labels' = <<>>
+    /\ iter' = 0 /\ idx' = 0 /\ best' = NoBest /\ oracle' = NoOracle /\ log' = <<>> /\ splits' = <<>> /\ labels' = <<>>
     /\ K' = -1 /\ query' = NoQuery /\ pred' = -1
     /\ UNCHANGED <<minPts, maxIter>>
 
@@ -206,7 +237,7 @@ Spec == Init /\ [][Next]_vars
 
 TypeOK ==
     /\ n \in Nat /\ minPts \in Nat /\ maxIter \in Nat
-    /\ pc \in {"while", "for", "final", "done", "predicted", "accepted"}
+    /\ pc \in {"while", "for", "final", "done", "predicted", "accepted", "rejected", "inconclusive"}
     /\ iter \in Nat /\ idx \in Nat
     /\ \A j \in 1..Len(clusters) : clusters[j] \subseteq 1..n
     /\ best.parent \in 0..Len(clusters)
@@ -245,6 +276,14 @@ NeverSplitSmall ==
     /\ \A s \in 1..Len(splits) : Cardinality(splits[s].ids) >= minPts
     /\ \A e \in 1..Len(log) : Cardinality(log[e].ids) >= minPts
 
+\* the oracle is a function of the cluster: every consultation of the loop got the answer recorded for that cluster
+\* (the same improvement / threshold every time, the same partition whenever one was requested)
+OracleIsFunction ==
+    \A e \in 1..Len(log) :
+        /\ log[e].ids \in DOMAIN oracle
+        /\ oracle[log[e].ids].imp = log[e].imp /\ oracle[log[e].ids].thr = log[e].thr
+        /\ (log[e].asked => oracle[log[e].ids].known /\ oracle[log[e].ids].c1 = log[e].c1)
+
 \* the accepted candidate qualified: improvement strictly above its threshold
 AcceptedAboveThreshold ==
     best.parent # 0 => Gt(best.imp, best.thr)
@@ -255,6 +294,6 @@ PredictInRange ==
 
 \* one split per iteration: number of clusters = accepted splits + 1 <= iteration + 1
 OneSplitPerIteration ==
-    Len(clusters) <= iter + 1 \/ pc \in {"predicted", "accepted"}
+    Len(clusters) <= iter + 1 \/ pc \in {"predicted", "accepted", "rejected", "inconclusive"}
 
 =============================================================================
